@@ -216,10 +216,10 @@ func octInterleaved(toks []string) string {
 }
 
 func init() {
-	register("c11i", octInterleaved)
+	register("c11i", octKeptWrap(octInterleaved))
 
 	// c11 <api><type>:<value> ... : write all values, then read them back with the matching calls
-	register("c11", func(toks []string) string {
+	register("c11", octKeptWrap(func(toks []string) string {
 		var stream = &iox.OctetsStream{}
 		var writer = iox.NewOctetsWriter(stream)
 		var reader = iox.NewOctetsReader(stream)
@@ -297,7 +297,7 @@ func init() {
 			refs = hexOrDash(ref)
 		}
 		return fmt.Sprintf("W=%s L=%s R=%s WERR=%s REF=%s", hexOrDash(written), strings.Join(lens, ","), strings.Join(rs, ";"), werr, refs)
-	})
+	}))
 
 	// c11sweep <lo> <hi> <stride> : every int32 v = lo, lo+stride, ... < hi, in both encodings,
 	// against encoding/binary and read back; implementation side only (no model), parallel.
@@ -380,6 +380,48 @@ func (m *octMeter) delta() uint64 {
 }
 
 // octRead performs one read call and formats the value / error identity.
+// Results handed out by ReadBytes / ReadString are kept with a private copy of their content and
+// compared again when the case is over: a value that was right when it was returned but changes
+// under later stream operations (a slice or string aliasing the stream's or the reader's own
+// buffer) is reported as "PANIC retained-result-changed ..." (the harness's only out-of-band
+// channel: every monitor treats it as a failing input).
+type octKept struct {
+	b    []byte
+	s    string
+	copy []byte
+}
+
+var octKeptList []octKept
+
+func octKeep(b []byte, s string) {
+	if len(octKeptList) > 4096 {
+		return
+	}
+	if b != nil {
+		octKeptList = append(octKeptList, octKept{b: b, copy: append([]byte(nil), b...)})
+	} else {
+		octKeptList = append(octKeptList, octKept{s: s, copy: []byte(strings.Clone(s))})
+	}
+}
+
+// octKeptVerdict wraps a handler: "" when every kept result still has its content.
+func octKeptWrap(h func(toks []string) string) func(toks []string) string {
+	return func(toks []string) string {
+		octKeptList = octKeptList[:0]
+		res := h(toks)
+		for i, k := range octKeptList {
+			cur := k.b
+			if cur == nil {
+				cur = []byte(k.s)
+			}
+			if !bytes.Equal(cur, k.copy) {
+				return fmt.Sprintf("PANIC retained-result-changed: result #%d of ReadBytes/ReadString was %s when returned and is %s after later stream operations", i, hex.EncodeToString(k.copy), hex.EncodeToString(cur))
+			}
+		}
+		return res
+	}
+}
+
 func octRead(stream *iox.OctetsStream, reader *iox.OctetsReader, viaStream bool, typ byte, n int, mt *octMeter) string {
 	switch typ {
 	case 'b':
@@ -470,6 +512,7 @@ func octRead(stream *iox.OctetsStream, reader *iox.OctetsReader, viaStream bool,
 		if err != nil {
 			return octErrName(err)
 		}
+		octKeep(v, "")
 		return "B:" + hex.EncodeToString(v)
 	case 'S':
 		mt.begin()
@@ -478,6 +521,7 @@ func octRead(stream *iox.OctetsStream, reader *iox.OctetsReader, viaStream bool,
 		if err != nil {
 			return octErrName(err)
 		}
+		octKeep(nil, v)
 		return "S:" + hex.EncodeToString([]byte(v))
 	case 'n':
 		var buf = make([]byte, n)
